@@ -141,6 +141,9 @@ The engine is new code and the main trusted component. Every run validates it ag
 * **Refinement of contract stubs.** `math.log2` is a contract, not a function (section 3). A model may pick a rounding the real
   libm does not; before replay, the true facts `log2(n_model) = <real value>` are added and the query is asked again until the
   model agrees with the real libm (at most 12 rounds, then inconclusive).
+* **Witness replay through the replay functions.** Harnesses whose observables are abstract (group algebra, signature oracle,
+  registries) hand a model of sampled *passing* paths to their replay function: the real package, run on those concrete inputs,
+  must not show a violation either. These also count in `traces_validated_against_impl`.
 * **Reachability markers.** Every check lists markers that must be reached (`MUST_REACH`: each outcome class, each interesting
   branch); a harness that reaches none of its assertions, or whose assumptions are unsatisfiable, fails the run (exit 2).
 * `PYTHONHASHSEED=0` and deterministic job order make runs repeatable; the decision-hash check catches the rest.
@@ -161,9 +164,14 @@ Every stub and assumption is part of the claim of each property that uses it and
   symbolic bytes; the requested size is logged *before* the value is built (C07's allocation claim is an assertion over that log).
 * **`math.log2`** — for a symbolic integer `n ≥ 1` the float result `r` is known through its contract: `k ≤ r ≤ k+1` for
   `2^k ≤ n < 2^(k+1)`, `r = k` exactly for `n = 2^k`, and below 2^40 `r` is an integer only for powers of two; above, `r` may be
-  rounded to either neighbouring integer. The stub yields `(floor r, r is an integer)`, from which `floor`, `ceil(r/8)`,
-  comparisons with integers and division by constants are computed. Proofs hold for every rounding the contract allows, i.e. for
-  any libm; counterexamples are refined against the real one.
+  rounded up to `k+1` only for `n` within `2^(k-39)` of `2^(k+1)` (an ulp at `k+1 ≤ 1024` is at most 2^-42; the band leaves two
+  bits for a libm that is off by an ulp) and may be the integer `k` only for `n` within the same distance above `2^k`. The stub
+  yields `(floor r, r is an integer)`, from which `floor`, `ceil(r/8)`, comparisons with integers and division by constants are
+  computed. Proofs hold for every rounding the contract allows, i.e. for any such libm. Counterexamples and witnesses are
+  refined against the real one: for the power-of-two range of each argument of the model, the exact thresholds at which the real
+  `math.log2` starts to round up / stops being the exact integer are found by bisection on the real function (monotone), and
+  the complete behaviour on that range is added as a fact; one round per range suffices. `log2_contract_samples` (C10) evaluates
+  the real function at `2^k + d` against the contract.
 * **Hashes** — `sha256`, `sha512`, `shake_256(x).digest(n)` are uninterpreted functions of (algorithm, length, content, output
   length): equal inputs, equal digests. Collision freedom is assumed only where a property talks about "a different script / key"
   (stated per check). SHA-2 itself is outside every claim.
